@@ -80,6 +80,26 @@ def predicateOnly (D : Defects) (impl : Sexp) (implS : String) (deepAllowed mark
   else if isUploadPanic impl && markerPresent && D.valueIndex then .known idValue implS specText
   else .viol "ok | err" specText
 
+def limOf : Sexp → Option (Option Nat)
+  | .atom "-" => some none
+  | .atom n => n.toNat?.map some
+  | _ => none
+
+def cfgOf : Sexp → Option Cfg
+  | .list [.atom "cfg", d, de, cx, rd, .atom fast, .atom nointro] => do
+    let d ← limOf d
+    let de ← limOf de
+    let cx ← limOf cx
+    let rd ← limOf rd
+    pure { dirs := d, depth := de, cplx := cx, rdepth := rd, fast := fast = "1", nointro := nointro = "1" }
+  | _ => none
+
+/-- `[CFG] SPEC` -/
+def docParts : List Sexp → Option (Cfg × Sexp)
+  | [spec] => some ({}, spec)
+  | [c, spec] => (cfgOf c).map (fun c => (c, spec))
+  | _ => none
+
 def judge (known : List String) (case impl : String) : JudgeOut :=
   let D : Defects :=
     { parseUnwrap := known.contains idParse, valueIndex := known.contains idValue,
@@ -92,25 +112,34 @@ def judge (known : List String) (case impl : String) : JudgeOut :=
       let f (D : Defects) : String := render (outcomeSexp (markerRun D s n))
       triage impl (f Defects.none) (f D)
         [(idParse, f { D with parseUnwrap := false }), (idValue, f { D with valueIndex := false })]
-    | .list [.atom "doc", .atom mode, .list [.atom "nest", .atom kind, .atom n]] =>
-      let n := n.toNat?.getD 0
-      let exec := mode.startsWith "exec"
-      let deep := deepKind kind && n ≥ abortFloor
-      let expected := (nestAnswerD D exec kind n).map ansAtom
-      let repaired := (nestAnswerD Defects.none exec kind n).map ansAtom
-      let modelS := match expected with | some a => a | none => "?"
-      if isAbort i then
-        if deep && D.noNestingLimit then .known idDeep impl specText else .viol modelS specText
-      else if isTimeout i then
-        if kind = "fragbomb" && exec && n ≥ bombFloor && D.spreadsExpanded then .known idBomb impl specText
-        else .viol modelS specText
-      else if !safe i then .viol modelS specText
-      else if deep then .ok
-      else if kind = "fragbomb" && exec && n ≥ bombFloor then .ok
-      else if some impl = expected || some impl = repaired then .ok
-      else .tie modelS specText
-    | .list [.atom "doc", .atom _, .list [.atom "lit", .str t]] =>
-      predicateOnly D i impl (D.noNestingLimit && nestingDepth t ≥ abortFloor) (hasMarker t)
+    | .list (.atom "doc" :: .atom mode :: restC) =>
+      match docParts restC with
+      | none => .viol "bad-case" "bad-case"
+      | some (cfg, .list [.atom "nest", .atom kind, .atom n]) =>
+        let n := n.toNat?.getD 0
+        let exec := mode.startsWith "exec"
+        let deep := deepKind kind && n ≥ abortFloor
+        let refused (D : Defects) : Bool := !D.noNestingLimit && nestTextDepth kind n > nestingLimit
+        -- default configuration: the answer is predicted exactly; any other: only what every
+        -- configuration must refuse (`mustErr`), the rest is configuration-dependent
+        let exact := !exec || cfg.isDefault
+        let expected (D : Defects) : Option String :=
+          if exact then (nestAnswerD D exec kind n).map ansAtom
+          else if refused D || mustErr cfg kind n then some "err" else none
+        let modelS := match expected D with | some a => a | none => "ok | err"
+        if isAbort i then
+          if deep && D.noNestingLimit then .known idDeep impl specText else .viol modelS specText
+        else if isTimeout i then
+          if kind = "fragbomb" && exec && n ≥ bombFloor && D.spreadsExpanded then .known idBomb impl specText
+          else .viol modelS specText
+        else if !safe i then .viol modelS specText
+        else if deep && D.noNestingLimit then .ok
+        else if kind = "fragbomb" && exec && n ≥ bombFloor then .ok
+        else if expected D = none || some impl = expected D || some impl = expected Defects.none then .ok
+        else .tie modelS specText
+      | some (_, .list [.atom "lit", .str t]) =>
+        predicateOnly D i impl (D.noNestingLimit && nestingDepth t ≥ abortFloor) (hasMarker t)
+      | some _ => .viol "bad-case" "bad-case"
     | .list [.atom "calib", .atom _, .atom _] =>
       match i with
       | .list [.atom "threshold", .atom "none"] => .ok
